@@ -2,7 +2,9 @@ import PEval.Driver.Util
 import PEval.Model.Dataset
 /-! Driver handler for C16 (dataset loader): `{"op":"load", <tables>, "configs":[{task,frame,merge}]}`
 → `{"results":[{"frames":[…]} | {"err": kind}]}`; `{"op":"load2d", <tables>, "configs":[{task,family,merge,frames}]}`
-for the 2-D tasks. -/
+for the 2-D tasks; `{"op":"tlr", <tables>}` → `{"tlr": null | {"pos": mean position, "rot": SUM of the sign-aligned
+rotations (the stored rotation up to the normalisation)}}` or `{"err": kind}`: the averaged traffic-light camera
+(`CAM_TRAFFIC_LIGHT -> BASE_LINK`) that `_get_transforms` stores with every frame. -/
 open Lean
 
 namespace PEval.Driver.C16
@@ -147,6 +149,12 @@ def handle : Json → Except String Json := fun j => do
       | .ok frames => Json.mkObj [("frames", jList jFrame2D frames)]
       | .error k => Json.mkObj [("err", Json.str k)])
     pure (Json.mkObj [("results", Json.arr res.toArray)])
+  | "tlr" =>
+    let T ← decodeTables j
+    pure (match tlrAverage T with
+      | .ok (some p) => Json.mkObj [("tlr", Json.mkObj (jPose p))]
+      | .ok none => Json.mkObj [("tlr", Json.null)]
+      | .error k => Json.mkObj [("err", Json.str k)])
   | o => throw s!"unknown op {o}"
 
 end PEval.Driver.C16
